@@ -82,12 +82,16 @@ func goEnv() []string {
 	return append(env, "GOFLAGS=-mod=mod", "GOPROXY=off")
 }
 
-func startNativeBuild(repo, buildDir, overlayJSON, pkgDir string) *nativeBuild {
+func startNativeBuild(repo, buildDir, overlayJSON, pkgDir string, race bool) *nativeBuild {
 	nb := &nativeBuild{pkgDir: pkgDir, bin: filepath.Join(buildDir, strings.ReplaceAll(pkgDir, "/", "_")+".test"), done: make(chan struct{})}
 	go func() {
 		defer close(nb.done)
 		t0 := time.Now()
-		cmd := exec.Command("go", "test", "-c", "-vet=off", "-overlay", overlayJSON, "-o", nb.bin, "./"+pkgDir)
+		args := []string{"test", "-c", "-vet=off", "-overlay", overlayJSON, "-o", nb.bin}
+		if race {
+			args = append(args, "-race")
+		}
+		cmd := exec.Command("go", append(args, "./"+pkgDir)...)
 		cmd.Dir = repo
 		cmd.Env = goEnv()
 		out, err := cmd.CombinedOutput()
@@ -123,8 +127,9 @@ func (nb *nativeBuild) runBatch(buildDir string, cases []BatchCase, perCase time
 		ctx, cancel := context.WithTimeout(context.Background(), perCase*time.Duration(len(remaining))+30*time.Second)
 		cmd := exec.CommandContext(ctx, nb.bin, "-test.run", "^TestVerifReplay$", "-test.timeout", "0")
 		cmd.Dir = buildDir
-		cmd.Env = append(os.Environ(), "VERIF_BATCH="+in, "VERIF_OUT="+out)
+		cmd.Env = append(os.Environ(), "VERIF_BATCH="+in, "VERIF_OUT="+out, "GORACE=halt_on_error=1")
 		outb, err := cmd.CombinedOutput()
+		timedOut := ctx.Err() != nil
 		cancel()
 		got := 0
 		if fo, e2 := os.Open(out); e2 == nil {
@@ -146,11 +151,11 @@ func (nb *nativeBuild) runBatch(buildDir string, cases []BatchCase, perCase time
 		// the case after the last completed one killed the process (fatal error, os.Exit, hang)
 		bad := remaining[got]
 		msg := strings.TrimSpace(string(outb))
-		if len(msg) > 2000 {
-			msg = msg[len(msg)-2000:]
+		if len(msg) > 3000 {
+			msg = msg[:1500] + "\n[…]\n" + msg[len(msg)-1400:]
 		}
 		r := &BatchResult{ID: bad.ID, Panic: "process died: " + fmt.Sprint(err) + "\n" + msg}
-		if ctx.Err() != nil {
+		if timedOut {
 			r.TimedOut = true
 		}
 		res[bad.ID] = r
